@@ -283,6 +283,28 @@ func c08Run(c *mon.Ctx, r *mon.Rand) {
 	for k := range zs {
 		zs[k] = root.SubScope(fmt.Sprintf("z%d", k))
 	}
+	ys := make([]tally.Scope, nZ/2)
+	for k := range ys {
+		ys[k] = root.SubScope(fmt.Sprintf("y%d", k))
+	}
+	// first use of a few gauge names by four goroutines at the same moment
+	fgScope := root.SubScope("fg")
+	fgs := make([][]tally.Gauge, 6)
+	for k := range fgs {
+		fgs[k] = make([]tally.Gauge, 4)
+		var fw, fstart sync.WaitGroup
+		fstart.Add(1)
+		for g := 0; g < 4; g++ {
+			fw.Add(1)
+			go func(k, g int) {
+				defer fw.Done()
+				fstart.Wait()
+				fgs[k][g] = fgScope.Gauge(fmt.Sprintf("g%d", k))
+			}(k, g)
+		}
+		fstart.Done()
+		fw.Wait()
+	}
 	ngScope := root.SubScope("ng")
 	ngCtr := []tally.Counter{ngScope.Counter("a"), ngScope.Counter("b")}
 	ngGauge := ngScope.Gauge("g")
@@ -369,6 +391,31 @@ func c08Run(c *mon.Ctx, r *mon.Rand) {
 	for k, z := range zs {
 		z.Counter("c").Inc(int64(k + 1))
 		z.(io.Closer).Close()
+	}
+	// ... and subscopes that two goroutines close, each of them every one, while
+	// the shutdown runs (a handle may be closed any number of times, by anyone)
+	for k, y := range ys {
+		y.Counter("c").Inc(int64(k + 1))
+	}
+	for d := 0; d < 2 && len(ys) > 0; d++ {
+		wgC.Add(1)
+		go func() {
+			defer wgC.Done()
+			<-startC
+			c.Guard("panic-subscope-close-during-close", func() interface{} { return desc }, func() {
+				for _, y := range ys {
+					y.(io.Closer).Close()
+				}
+			})
+		}()
+	}
+	// gauges whose first use was made by several goroutines at once: every
+	// handle is the one gauge, so after each handle was updated in turn (before
+	// Close is called) the last of these updates is what the reporter ends on
+	for k := range fgs {
+		for g, h := range fgs[k] {
+			h.Update(float64(1000*k + g + 1))
+		}
 	}
 	for d := 0; d < 2 && len(zs) > 0; d++ {
 		wgC.Add(1)
@@ -542,6 +589,19 @@ func c08Run(c *mon.Ctx, r *mon.Rand) {
 			if got := lastGauge[mon.IdentKey(m.name+".g", nil)]; got != m.last {
 				bad("not-delivered-before-close-returned", fmt.Sprintf("gauge %s.g: most recent value before Close returned %#x, last update %#x (landed %s)", m.name, got, m.last, where))
 			}
+		}
+	}
+	for k := range ys {
+		c.Event("guaranteed-metrics-checked", 1)
+		if got := sumBefore[mon.IdentKey(fmt.Sprintf("y%d.c", k), nil)]; got != int64(k+1) {
+			bad("not-delivered-before-close-returned", fmt.Sprintf("counter y%d.c of a subscope that other goroutines closed during the shutdown: %d delivered before Close returned, %d recorded before Close was called (landed %s)", k, got, k+1, where))
+		}
+	}
+	for k := range fgs {
+		c.Event("guaranteed-metrics-checked", 1)
+		want := math.Float64bits(float64(1000*k + 4))
+		if got := lastGauge[mon.IdentKey(fmt.Sprintf("fg.g%d", k), nil)]; got != want {
+			bad("not-delivered-before-close-returned", fmt.Sprintf("gauge fg.g%d (first used by four goroutines at once, then updated through each of their handles in turn): most recent value before Close returned %v, last update %v (landed %s)", k, math.Float64frombits(got), math.Float64frombits(want), where))
 		}
 	}
 	for k := range zs {
